@@ -203,6 +203,28 @@ def shape_models():
             h.n("Reshape", ["x", "t"], "y")
             h.out("y")
             out.append(h.build())
+    # shape values going through a Cast to another integer / float type before Gather / Slice / Concat pick static dims
+    for to, tname in ((TP.INT32, "int32"), (TP.INT64, "int64"), (TP.FLOAT, "float")):
+        for pick in ("gather1d", "gather0d", "slice"):
+            xs = (2, 4)
+            h = H(f"{pick}(Cast<{tname}>(Shape(x))) x={list(xs)}")
+            h.inp("x", F, xs)
+            h.inp("k", to, (2,))
+            h.n("Shape", ["x"], "s")
+            h.n("Cast", ["s"], "sc", to=to)
+            if pick == "gather1d":
+                h.c("i", np.array([1], dtype=np.int64))
+                h.n("Gather", ["sc", "i"], "d", axis=0)
+            elif pick == "gather0d":
+                h.c("i", np.array(1, dtype=np.int64))
+                h.n("Gather", ["sc", "i"], "d", axis=0)
+            else:
+                h.c("b", np.array([1], dtype=np.int64))
+                h.c("e", np.array([2], dtype=np.int64))
+                h.n("Slice", ["sc", "b", "e"], "d")
+            h.n("Mul", ["k", "d"], "y")
+            h.out("y")
+            out.append(h.build())
     return [(mb, spec, "shape: " + tag, ["shape"]) for mb, spec, tag in out]
 
 
